@@ -657,6 +657,147 @@ theorem reach_synced (p : Params) (g : Block) (hg : g.header.height = 0) (s : St
       exact (reopen_synced_ok p g _ _ _ hs3 (sameStores_self _ hs3) h).2.1
 
 
+/-! ### further crashes inside `recoverStore` -/
+
+/-- where a crash inside `recoverStore` leaves the stores: again one of the crash states of the original submission -/
+def afterRecoveryCrash (k r : Nat) : Nat := if r = 0 then k else if r = 1 then max k 2 else 3
+
+theorem recoverCrash_crash12 (p : Params) (s : State) (b : Block) (m : Mem) (k r : Nat) (hs : Synced s)
+    (hh : b.header.height = s.mem.currHeight + 1) (hk : k = 1 ∨ k = 2)
+    (hm : m.currHeight = b.header.height) (hst : m.stateTree = s.mem.stateTree) (hbt : m.blockTree = s.mem.blockTree)
+    (hfp : m.filePos = s.mem.filePos) :
+    recoverCrash p (crashD p s b k) m r = some (crashD p s b (afterRecoveryCrash k r)) := by
+  have h3 : ¬ k ≥ 3 := by omega
+  have h1 : k ≥ 1 := by omega
+  obtain ⟨-, -, b3, b4⟩ := commit_blockBatch p s.mem b s.dur.blocks
+  have eS : (crashD p s b k).states = s.dur.states := by simp [crashD, persisted, h3]
+  have eB : (crashD p s b k).blocks = s.dur.blocks.commit (blockBatch p s.mem b) := by simp [crashD, persisted, h1, fillAll]
+  unfold recoverCrash
+  rw [eS, hs.statesCur]
+  simp only [hm, hh]
+  rw [if_neg (by omega), eB, ← hh, b3]
+  simp only [b4]
+  congr 1
+  have hfl : max (crashD p s b k).fileLen (fillMem m b (p.exec s.dur.states.kv b)).filePos = (crashD p s b k).fileLen := by
+    simp only [crashD, persisted, fillAll_fileLen, fillMem, hfp, hbt]
+    omega
+  have hev : (crashD p s b k).events.commit (eventBatch p b (p.exec s.dur.states.kv b)) = (crashD p s b 2).events := by
+    rcases hk with rfl | rfl
+    · simp [crashD, persisted, fillAll]
+    · simp [crashD, persisted, fillAll, EventDB.commit_idem]
+  have hev0 : k = 2 → (crashD p s b k).events = (crashD p s b 2).events := by intro e; rw [e]
+  have hbl : ∀ j, 1 ≤ j → (crashD p s b j).blocks = s.dur.blocks.commit (blockBatch p s.mem b) := by
+    intro j hj; simp [crashD, persisted, hj, fillAll]
+  have hflj : ∀ j, (crashD p s b j).fileLen = (crashD p s b k).fileLen := by intro j; simp [crashD, persisted]
+  rw [hfl]
+  by_cases hr0 : r = 0
+  · subst hr0
+    simp only [afterRecoveryCrash, if_true]
+    apply Durable.ext
+    · exact (hbl k h1).symm
+    · simp [eS]
+    · simp
+    · simp
+  · by_cases hr1 : r = 1
+    · subst hr1
+      have ha : afterRecoveryCrash k 1 = 2 := by
+        rcases hk with rfl | rfl <;> simp [afterRecoveryCrash]
+      rw [ha]
+      apply Durable.ext
+      · exact (hbl 2 (by omega)).symm
+      · simp [eS, crashD, persisted]
+      · simp only [Nat.le_refl, ge_iff_le, if_true]; exact hev
+      · simp only; exact (hflj 2).symm
+    · have hr2 : r ≥ 2 := by omega
+      have hr1' : r ≥ 1 := by omega
+      have ha : afterRecoveryCrash k r = 3 := by simp [afterRecoveryCrash, hr0, hr1]
+      rw [ha]
+      apply Durable.ext
+      · exact (hbl 3 (by omega)).symm
+      · simp only [hr2, if_true, eS, hst, hbt]; simp [crashD, persisted, fillAll]
+      · simp only [hr1', if_true]; rw [hev]; simp [crashD, persisted]
+      · simp only; exact (hflj 3).symm
+
+theorem reopenCrash_crash12 (p : Params) (g : Block) (s : State) (b : Block) (k r : Nat) (d' : Durable) (hs : Synced s)
+    (hh : b.header.height = s.mem.currHeight + 1) (hk : k = 1 ∨ k = 2)
+    (h : reopenCrash p g (crashD p s b k) r = some d') : d' = crashD p s b (afterRecoveryCrash k r) := by
+  have h1 : k ≥ 1 := by omega
+  have h3 : k < 3 := by omega
+  obtain ⟨-, c2, -, -⟩ := commit_blockBatch p s.mem b s.dur.blocks
+  unfold reopenCrash at h
+  rw [openState_crash_lt p s b k hs h3] at h
+  simp only at h
+  split at h
+  · cases h
+  · split at h
+    · cases h
+    · have hcur : (crashD p s b k).blocks.current = some (b.header.hash, b.header.height) := by
+        rw [crashD_blocks p s b k h1]; exact c2
+      rw [hcur] at h
+      simp only at h
+      split at h
+      · cases h
+      · rename_i idx cnt stored _
+        rw [recoverCrash_crash12 p s b
+              { emptyMem with currHeight := b.header.height, currHash := b.header.hash, headerIndex := idx, headerCount := cnt,
+                              storedIndexCount := stored, blockTree := s.mem.blockTree, stateTree := s.mem.stateTree,
+                              filePos := s.mem.filePos } k r hs hh hk rfl rfl rfl rfl] at h
+        exact (Option.some.inj h).symm
+
+/-- nothing is replayed on a consistent ledger, so no crash point inside `recoverStore` is reached -/
+theorem reopenCrash_synced (p : Params) (g : Block) (s : State) (d : Durable) (r : Nat) (hs : Synced s)
+    (hd : SameStores d s) : reopenCrash p g d r = none := by
+  unfold reopenCrash
+  rw [openState_synced s d hs hd]
+  simp only [hd.1, hs.version, Bool.not_true, Bool.false_eq_true, if_false, hs.blocksCur]
+  split
+  · rfl
+  · split
+    · rfl
+    · unfold recoverCrash
+      rw [hd.2.1, hs.statesCur]
+      simp
+
+/-- the durable states reachable from a crash behind the first commit by any number of further crashes inside
+`recoverStore` during the following starts -/
+inductive CrashChain (p : Params) (g : Block) (s : State) (b : Block) : Durable → Prop
+  | first (k : Nat) : 1 ≤ k → k ≤ 3 → CrashChain p g s b (crashD p s b k)
+  | again {d d' : Durable} (r : Nat) : CrashChain p g s b d → reopenCrash p g d r = some d' → CrashChain p g s b d'
+
+theorem crashChain_form (p : Params) (g : Block) (s : State) (b : Block) (d : Durable) (hs : Synced s)
+    (hh : b.header.height = s.mem.currHeight + 1) (h : CrashChain p g s b d) :
+    ∃ j, 1 ≤ j ∧ j ≤ 3 ∧ d = crashD p s b j := by
+  induction h with
+  | first k h1 h3 => exact ⟨k, h1, h3, rfl⟩
+  | @again d0 d1 r _ hr ih =>
+    obtain ⟨j, j1, j3, e⟩ := ih
+    subst e
+    by_cases hj : j = 3
+    · subst hj
+      have hs3 := submitted_synced_next p s b (p.exec s.dur.states.kv b) hs hh
+      rw [← submitted_dur, reopenCrash_synced p g _ _ r hs3 (sameStores_self _ hs3)] at hr
+      cases hr
+    · have hk : j = 1 ∨ j = 2 := by omega
+      refine ⟨afterRecoveryCrash j r, ?_, ?_, reopenCrash_crash12 p g s b j r d1 hs hh hk hr⟩
+      · unfold afterRecoveryCrash
+        split
+        · omega
+        · split <;> omega
+      · unfold afterRecoveryCrash
+        split
+        · omega
+        · split <;> omega
+
+/-- **any sequence of crashes** (one inside `submitBlock` behind the first commit, then any number inside
+`recoverStore`) restarts to the ledger of the complete submission -/
+theorem reopen_crashChain (p : Params) (g : Block) (s : State) (b : Block) (d : Durable) (hs : Synced s)
+    (hh : b.header.height = s.mem.currHeight + 1) (h : CrashChain p g s b d) :
+    reopen p g d = reopen p g (crashD p s b 3) := by
+  obtain ⟨j, j1, j3, e⟩ := crashChain_form p g s b d hs hh h
+  subst e
+  exact reopen_crash_ge1 p g s b j hs hh j1 j3
+
+
 /-! ### the hash-file length never influences a verdict -/
 
 /-- the hash-file length does not influence a submission: same verdict, same result up to that length -/
